@@ -1,7 +1,8 @@
 //! S-SEND: the real `try_send_packet` of each link against a device that
 //! reacts - would-block, short write, Interrupted, hard I/O error, flush
 //! error, displaced CAN frame. Decides C14 (single-fault enumeration plus
-//! seeded exploration).
+//! seeded exploration). A run sends one packet, or a short sequence of related
+//! packets through the same sender object.
 
 use crate::dev::{can_eq, show_can, AnyLink, CanUnit, Dev, LinkKind, TxFault, TxPolicy, Wire};
 use crate::gen::{fill_pattern, gen_packet, SizeCfg};
@@ -51,32 +52,51 @@ pub fn run(sim: &Sim, prop: &str, tier: Tier) -> Outcome {
     let wire = Wire::new(kind);
     let back = Wire::new(kind);
 
-    let packet: Packet;
-    let mut any_fault_configured = false;
+    let mut packets: Vec<Packet> = Vec::new();
     if placed_mode {
         let sizes = enum_sizes(tier);
         let len = sizes[sim.draw(sizes.len() as u32) as usize];
-        packet = Packet {
+        packets.push(Packet {
             is_error: len % 2 == 1,
             device_address: 0x0a0b,
             data: fill_pattern(6, 5, len),
-        };
+        });
         let fk = sim.draw(placed_kinds(kind));
         let pos = sim.draw(4096);
         let arg = sim.draw(256);
         // position 4095 = no fault at all (the dry run that counts the device calls)
         if pos != 4095 {
             wire.borrow_mut().tx.placed = Some((pos, placed_fault(kind, fk, arg)));
-            any_fault_configured = true;
         }
     } else {
-        let sizes = match (tier, sim.draw(40)) {
-            (Tier::Quick, 39) => SizeCfg { large_pct: 30, huge_pct: 0 },
-            (Tier::Thorough, 37..=39) => SizeCfg { large_pct: 20, huge_pct: 15 },
-            (Tier::Thorough, 34..=36) => SizeCfg { large_pct: 30, huge_pct: 0 },
+        let sizes = match (tier, sim.draw(200)) {
+            (Tier::Quick, 199) => SizeCfg { large_pct: 10, huge_pct: 40 },
+            (Tier::Quick, 190..=198) => SizeCfg { large_pct: 30, huge_pct: 0 },
+            (Tier::Thorough, 185..=199) => SizeCfg { large_pct: 20, huge_pct: 15 },
+            (Tier::Thorough, 170..=184) => SizeCfg { large_pct: 30, huge_pct: 0 },
             _ => SizeCfg { large_pct: 0, huge_pct: 0 },
         };
-        packet = gen_packet(sim, sizes, &[0x0a0b]);
+        let first = gen_packet(sim, sizes, &[0x0a0b]);
+        packets.push(first.clone());
+        // a short sequence of *related* packets through the same sender object
+        if sim.chance(30) {
+            let more = 1 + sim.draw(3);
+            for _ in 0..more {
+                let mut p = packets[sim.draw(packets.len() as u32) as usize].clone();
+                match sim.draw(5) {
+                    0 => p.is_error = !p.is_error,
+                    1 => p.device_address = p.device_address.wrapping_add(1),
+                    2 => {
+                        if let Some(b) = p.data.last_mut() {
+                            *b ^= 0x01;
+                        }
+                    }
+                    3 => p.data.push(0x5a),
+                    _ => p = gen_packet(sim, SizeCfg { large_pct: 0, huge_pct: 0 }, &[0x0a0b]),
+                }
+                packets.push(p);
+            }
+        }
         let mut p = TxPolicy::benign();
         match kind {
             LinkKind::Usart => {
@@ -95,7 +115,6 @@ pub fn run(sim: &Sim, prop: &str, tier: Tier) -> Outcome {
                 p.flush_err = sim.pick(&[0u32, 0, 20]);
             }
         }
-        any_fault_configured = p.wb + p.displaced + p.short + p.interrupted + p.hard + p.flush_err > 0;
         // rarely: one very long would-block burst before one early unit ("any number of times")
         let placed = if kind != LinkKind::Serial && sim.chance(3) {
             sim.probe("long_would_block_burst");
@@ -106,199 +125,233 @@ pub fn run(sim: &Sim, prop: &str, tier: Tier) -> Outcome {
         wire.borrow_mut().tx = TxPolicy { placed, ..p };
     }
 
-    // expected stream: the library's own fragmenter and frame encoders define "its frames"
-    let rfs = match frames_of(&packet) {
-        Ok(r) => r,
-        Err(e) => return Outcome::Foreign("C10.encode", e.0),
-    };
-    let mut exp_bytes: Vec<u8> = Vec::new();
-    let mut exp_frames: Vec<bxcan::Frame> = Vec::new();
-    for rf in &rfs {
-        match encode(kind, rf) {
-            Ok(Unit::Body(b)) => {
-                exp_bytes.push(0x00);
-                exp_bytes.push(b.len() as u8);
-                exp_bytes.extend_from_slice(&b);
-            }
-            Ok(Unit::Can(CanUnit::Frame(f))) => exp_frames.push(f),
-            Ok(_) => {}
-            Err(e) => return Outcome::Foreign("C09.encode", e.0),
-        }
-    }
-
     sim.set_sample(|| {
         format!(
-            "link={} {} packet={} policy={:?}",
+            "link={} {} packets=[{}] policy={:?}",
             kind.name(),
             if placed_mode { "single placed fault" } else { "random reactions" },
-            show_packet(&packet),
+            packets.iter().map(show_packet).collect::<Vec<_>>().join(", "),
             wire.borrow().tx
         )
     });
 
     let mut tx = AnyLink::new(kind, Dev::new(sim, "tx", &back, &wire));
-    let res = send(sim, "tx", &mut tx, &packet);
-    let w = wire.borrow();
-    sim.count_n("tx_calls", w.tx_calls as u64);
-    sim.count_n("flush_calls", w.flush_calls as u64);
     let sig = |what: &str| format!("{}:{}", kind.name(), what);
+    let mut exp_bytes: Vec<u8> = Vec::new();
+    let mut exp_frames: Vec<bxcan::Frame> = Vec::new();
+    if packets.len() > 1 {
+        sim.probe("several_packets_through_one_sender");
+    }
 
-    // reach probes: which reactions actually fired
-    if w.tx_wb_total > 0 {
-        sim.probe("fired_would_block");
-    }
-    if w.tx_short > 0 {
-        sim.probe("fired_short_write");
-    }
-    if w.tx_interrupted > 0 {
-        sim.probe("fired_interrupted");
-    }
-    if w.tx_hard_errors > 0 {
-        sim.probe("fired_hard_write_error");
-    }
-    if w.tx_flush_errors > 0 {
-        sim.probe("fired_flush_error");
-    }
-    if w.tx_displaced > 0 {
-        sim.probe("fired_displaced_frame");
-    }
-    if rfs.len() > 1 {
-        sim.probe("multi_frame_packet");
-    }
-    if rfs.len() > 256 {
-        sim.probe("frame_id_over_255");
-    }
-    let _ = any_fault_configured;
+    for (pi, packet) in packets.iter().enumerate() {
+        // expected stream: the library's own fragmenter and frame encoders define "its frames"
+        let rfs = match frames_of(packet) {
+            Ok(r) => r,
+            Err(e) => return Outcome::Foreign("C10.encode", e.0),
+        };
+        for rf in &rfs {
+            match encode(kind, rf) {
+                Ok(Unit::Body(b)) => {
+                    exp_bytes.push(0x00);
+                    exp_bytes.push(b.len() as u8);
+                    exp_bytes.extend_from_slice(&b);
+                }
+                Ok(Unit::Can(CanUnit::Frame(f))) => exp_frames.push(f),
+                Ok(_) => {}
+                Err(e) => return Outcome::Foreign("C09.encode", e.0),
+            }
+        }
+        let before = {
+            let w = wire.borrow();
+            (w.tx_hard_errors, w.tx_flush_errors, w.tx_displaced, w.tx_interrupted, w.tx_wb_total, w.tx_short)
+        };
+        let res = send(sim, "tx", &mut tx, packet);
+        let w = wire.borrow();
+        let hard_w = w.tx_hard_errors - before.0;
+        let hard_f = w.tx_flush_errors - before.1;
+        let displaced = w.tx_displaced - before.2;
+        let interrupted = w.tx_interrupted - before.3;
+        let wbs = w.tx_wb_total - before.4;
+        let shorts = w.tx_short - before.5;
+        if pi == 0 {
+            sim.count_n("tx_calls", w.tx_calls as u64);
+            sim.count_n("flush_calls", w.flush_calls as u64);
+        }
+        // reach probes: which reactions actually fired
+        if wbs > 0 {
+            sim.probe("fired_would_block");
+        }
+        if shorts > 0 {
+            sim.probe("fired_short_write");
+        }
+        if interrupted > 0 {
+            sim.probe("fired_interrupted");
+        }
+        if hard_w > 0 {
+            sim.probe("fired_hard_write_error");
+        }
+        if hard_f > 0 {
+            sim.probe("fired_flush_error");
+        }
+        if displaced > 0 {
+            sim.probe("fired_displaced_frame");
+        }
+        if rfs.len() > 1 {
+            sim.probe("multi_frame_packet");
+        }
+        if rfs.len() > 256 {
+            sim.probe("frame_id_over_255");
+        }
+        if rfs.len() == 4096 {
+            sim.probe("packet_4096_frames");
+        }
 
-    // ---- what the device accepted vs. what was to be sent
-    let (is_prefix, is_equal, accepted_n, expected_n, first_diff) = if kind.is_bytes() {
-        let n = w.bytes.len().min(exp_bytes.len());
-        let diff = (0..n).find(|&i| w.bytes[i] != exp_bytes[i]);
-        (
-            diff.is_none() && w.bytes.len() <= exp_bytes.len(),
-            diff.is_none() && w.bytes.len() == exp_bytes.len(),
-            w.bytes.len(),
-            exp_bytes.len(),
-            diff.unwrap_or(n),
-        )
-    } else {
-        let acc: Vec<&bxcan::Frame> = w
-            .cframes
-            .iter()
-            .filter_map(|u| match u {
-                CanUnit::Frame(f) => Some(f),
-                _ => None,
-            })
-            .collect();
-        let n = acc.len().min(exp_frames.len());
-        let diff = (0..n).find(|&i| !can_eq(acc[i], &exp_frames[i]));
-        (
-            diff.is_none() && acc.len() <= exp_frames.len(),
-            diff.is_none() && acc.len() == exp_frames.len(),
-            acc.len(),
-            exp_frames.len(),
-            diff.unwrap_or(n),
-        )
-    };
-    let show_around = |i: usize| -> String {
-        if kind.is_bytes() {
-            let a = i.saturating_sub(4);
-            format!(
-                "accepted[{}..]={} expected[{}..]={}",
-                a,
-                hex(&w.bytes[a.min(w.bytes.len())..(i + 8).min(w.bytes.len())]),
-                a,
-                hex(&exp_bytes[a.min(exp_bytes.len())..(i + 8).min(exp_bytes.len())])
+        // ---- what the device accepted so far vs. what was to be sent so far
+        let (is_prefix, is_equal, accepted_n, expected_n, first_diff) = if kind.is_bytes() {
+            let n = w.bytes.len().min(exp_bytes.len());
+            let diff = (0..n).find(|&i| w.bytes[i] != exp_bytes[i]);
+            (
+                diff.is_none() && w.bytes.len() <= exp_bytes.len(),
+                diff.is_none() && w.bytes.len() == exp_bytes.len(),
+                w.bytes.len(),
+                exp_bytes.len(),
+                diff.unwrap_or(n),
             )
         } else {
-            let acc = w.cframes.get(i).map(|u| match u {
-                CanUnit::Frame(f) => show_can(f),
-                _ => "-".into(),
-            });
-            format!("accepted[{}]={:?} expected[{}]={:?}", i, acc, i, exp_frames.get(i).map(show_can))
-        }
-    };
+            let acc: Vec<&bxcan::Frame> = w
+                .cframes
+                .iter()
+                .filter_map(|u| match u {
+                    CanUnit::Frame(f) => Some(f),
+                    _ => None,
+                })
+                .collect();
+            let n = acc.len().min(exp_frames.len());
+            let diff = (0..n).find(|&i| !can_eq(acc[i], &exp_frames[i]));
+            (
+                diff.is_none() && acc.len() <= exp_frames.len(),
+                diff.is_none() && acc.len() == exp_frames.len(),
+                acc.len(),
+                exp_frames.len(),
+                diff.unwrap_or(n),
+            )
+        };
+        let show_around = |i: usize| -> String {
+            if kind.is_bytes() {
+                let a = i.saturating_sub(4);
+                format!(
+                    "accepted[{}..]={} expected[{}..]={}",
+                    a,
+                    hex(&w.bytes[a.min(w.bytes.len())..(i + 8).min(w.bytes.len())]),
+                    a,
+                    hex(&exp_bytes[a.min(exp_bytes.len())..(i + 8).min(exp_bytes.len())])
+                )
+            } else {
+                let acc = w.cframes.get(i).map(|u| match u {
+                    CanUnit::Frame(f) => show_can(f),
+                    _ => "-".into(),
+                });
+                format!("accepted[{}]={:?} expected[{}]={:?}", i, acc, i, exp_frames.get(i).map(show_can))
+            }
+        };
+        let nth = if packets.len() > 1 { format!(" (packet #{} of {} through this sender)", pi + 1, packets.len()) } else { String::new() };
 
-    match &res {
-        Err(Crash::Blocked) => {
+        match &res {
+            Err(Crash::Blocked) => {
+                return fail(
+                    prop,
+                    "C14.term",
+                    format!("try_send_packet never returns although the device accepts after finitely many would-blocks ({}){}", kind.name(), nth),
+                    sig("blocked"),
+                )
+            }
+            Err(Crash::Panic(m)) => {
+                return fail(
+                    prop,
+                    "C14.exact",
+                    format!("sender panicked for {}{}: {}", show_packet(packet), nth, m),
+                    sig(&format!("panic:{}", panic_site(m))),
+                )
+            }
+            _ => {}
+        }
+        if !is_prefix {
             return fail(
                 prop,
-                "C14.term",
-                format!("try_send_packet never returns although the device accepts after finitely many would-blocks ({})", kind.name()),
-                sig("blocked"),
-            )
+                "C14.prefix",
+                format!(
+                    "the stream the device accepted is not a prefix of the packets' frames{} (accepted {} of {} units, first difference at {}): {}",
+                    nth,
+                    accepted_n,
+                    expected_n,
+                    first_diff,
+                    show_around(first_diff)
+                ),
+                sig("not-a-prefix"),
+            );
         }
-        Err(Crash::Panic(m)) => {
+        let ok = matches!(res, Ok(Ok(())));
+        if ok && !is_equal {
             return fail(
                 prop,
                 "C14.exact",
-                format!("sender panicked for {}: {}", show_packet(&packet), m),
-                sig(&format!("panic:{}", panic_site(m))),
-            )
+                format!(
+                    "try_send_packet returned Ok{} but the device accepted only {} of {} units: {}",
+                    nth,
+                    accepted_n,
+                    expected_n,
+                    show_around(accepted_n)
+                ),
+                sig("ok-but-incomplete"),
+            );
         }
-        _ => {}
-    }
-    if !is_prefix {
-        return fail(
-            prop,
-            "C14.prefix",
-            format!(
-                "the stream the device accepted is not a prefix of the packet's frames (accepted {} of {} units, first difference at {}): {}",
-                accepted_n,
-                expected_n,
-                first_diff,
-                show_around(first_diff)
-            ),
-            sig("not-a-prefix"),
-        );
-    }
-    let ok = matches!(res, Ok(Ok(())));
-    if ok && !is_equal {
-        return fail(
-            prop,
-            "C14.exact",
-            format!(
-                "try_send_packet returned Ok but the device accepted only {} of {} units: {}",
-                accepted_n,
-                expected_n,
-                show_around(accepted_n)
-            ),
-            sig("ok-but-incomplete"),
-        );
-    }
-    let hard = w.tx_hard_errors + w.tx_flush_errors + w.tx_displaced;
-    if ok && hard > 0 {
-        return fail(
-            prop,
-            "C14.err",
-            format!(
-                "the device reported {} write error(s), {} flush error(s), {} displaced frame(s) but try_send_packet returned Ok",
-                w.tx_hard_errors, w.tx_flush_errors, w.tx_displaced
-            ),
-            sig(if w.tx_displaced > 0 {
-                "displaced-ignored"
-            } else if w.tx_flush_errors > 0 {
-                "flush-error-ignored"
-            } else {
-                "write-error-ignored"
-            }),
-        );
-    }
-    if !ok && hard == 0 && w.tx_interrupted == 0 {
-        return fail(
-            prop,
-            "C14.exact",
-            format!(
-                "try_send_packet gave up with {:?} although the device only delayed (would-block x{}) or accepted partial writes (x{}); accepted {} of {} units",
-                res, w.tx_wb_total, w.tx_short, accepted_n, expected_n
-            ),
-            sig("spurious-error"),
-        );
-    }
-    if ok {
-        sim.count("sent_ok");
-    } else {
-        sim.count("sent_err_reported");
+        let hard = hard_w + hard_f + displaced;
+        if ok && hard > 0 {
+            return fail(
+                prop,
+                "C14.err",
+                format!(
+                    "the device reported {} write error(s), {} flush error(s), {} displaced frame(s) but try_send_packet returned Ok{}",
+                    hard_w, hard_f, displaced, nth
+                ),
+                sig(if displaced > 0 {
+                    "displaced-ignored"
+                } else if hard_f > 0 {
+                    "flush-error-ignored"
+                } else {
+                    "write-error-ignored"
+                }),
+            );
+        }
+        if ok && kind == LinkKind::Serial && !w.tx_flush_ok_after_last_write {
+            return fail(
+                prop,
+                "C14.exact",
+                format!(
+                    "try_send_packet returned Ok{} but the bytes written last were never flushed: the call returned before everything was handed to the device, and a flush failure could not have been reported",
+                    nth
+                ),
+                sig("returned-before-flush"),
+            );
+        }
+        if !ok && hard == 0 && interrupted == 0 {
+            return fail(
+                prop,
+                "C14.exact",
+                format!(
+                    "try_send_packet gave up with {:?}{} although the device only delayed (would-block x{}) or accepted partial writes (x{}); accepted {} of {} units",
+                    res, nth, wbs, shorts, accepted_n, expected_n
+                ),
+                sig("spurious-error"),
+            );
+        }
+        if ok {
+            sim.count("sent_ok");
+        } else {
+            sim.count("sent_err_reported");
+            // the stream now ends inside a packet: nothing further can be judged
+            break;
+        }
     }
     Outcome::Pass
 }
